@@ -91,25 +91,28 @@ theorem hyp_of_good (p : Params) (hp : Good p) (hz : PeekNonEmpty p) : PV.Lemmas
     rw [← allChunks_length]
     exact List.length_pos_iff.2 this
 
-/-- No deadlock: every reachable state is final or has an enabled step.
-    FALSE as stated (see `no_deadlock_is_false`); true version: `no_deadlock_corrected`. -/
-theorem no_deadlock (p : Params) (hp : Good p) (s : State) (hr : Reachable p s) :
-    Final p s ∨ ∃ l s', step p s l = some s' := by
-  sorry  -- FALSE: counterexample `cexParams` / `cexTrace`, refuted in `no_deadlock_is_false`
 
-theorem no_deadlock_corrected (p : Params) (hp : Good p) (hz : PeekNonEmpty p) (s : State) (hr : Reachable p s) :
+/-- No deadlock: every reachable state is final or has an enabled step (for peeking wrappers under the
+    hypothesis that a non-empty input sends at least one chunk — see `no_deadlock_is_false`). -/
+theorem no_deadlock (p : Params) (hp : Good p) (hz : PeekNonEmpty p) (s : State) (hr : Reachable p s) :
     Final p s ∨ ∃ l s', step p s l = some s' :=
   have hh := hyp_of_good p hp hz
   PV.Lemmas.Wrapper.progress hh (PV.Lemmas.Wrapper.inv_reachable hr) (PV.Lemmas.Wrapper.nf_reachable hh hr)
 
-/-- The collector's error branches (surplus output / child ended early) are unreachable.
-    FALSE as stated (see `never_fails_is_false`); true version: `never_fails_corrected`. -/
-theorem never_fails (p : Params) (hp : Good p) (s : State) (hr : Reachable p s) : s.coll ≠ .failed := by
-  sorry  -- FALSE: counterexample `cexParams` / `cexTrace`, refuted in `never_fails_is_false`
 
-theorem never_fails_corrected (p : Params) (hp : Good p) (hz : PeekNonEmpty p) (s : State) (hr : Reachable p s) :
+/-- The collector's error branches (surplus output / child ended early) are unreachable. -/
+theorem never_fails (p : Params) (hp : Good p) (hz : PeekNonEmpty p) (s : State) (hr : Reachable p s) :
     s.coll ≠ .failed :=
   (PV.Lemmas.Wrapper.nf_reachable (hyp_of_good p hp hz) hr).1
+
+/-- the form suggested for foldfilter: every record of a peeking wrapper has at least one chunk. -/
+theorem never_fails_of_pos (p : Params) (hp : Good p) (hz : p.peek = true → ∀ size ∈ p.sizes, 1 ≤ size)
+    (s : State) (hr : Reachable p s) : s.coll ≠ .failed :=
+  never_fails p hp (peekNonEmpty_of_pos p hz) s hr
+
+theorem no_deadlock_of_pos (p : Params) (hp : Good p) (hz : p.peek = true → ∀ size ∈ p.sizes, 1 ≤ size)
+    (s : State) (hr : Reachable p s) : Final p s ∨ ∃ l s', step p s l = some s' :=
+  no_deadlock p hp (peekNonEmpty_of_pos p hz) s hr
 
 /-- Every execution is finite: a natural-number measure strictly decreases with every step. -/
 theorem terminates (p : Params) (hp : Good p) :
